@@ -60,6 +60,9 @@ func (cl Serializer) DecodeDnsResponseWithParams(msg *dns.Msg, downstream enc.En
 	}
 	for _, c := range Commands {
 		if c.IsOfType(data) {
+			if c.NewResponse == nil {
+				return nil, errors.Errorf("Invalid response from server. Command %v has no response", c)
+			}
 			req := c.NewResponse()
 			err := req.Decode(downstream, data)
 			return req, err
@@ -155,6 +158,9 @@ func (cl Serializer) EncodeDnsRequestWithParams(req Request, qt dnsmessage.Type,
 func (cl Serializer) DecodeDnsRequest(request []byte) (Request, error) {
 	for _, c := range Commands {
 		if c.IsOfType(request) {
+			if c.NewRequest == nil {
+				return nil, errors.Errorf("Command %v cannot be sent as a request", c)
+			}
 			req := c.NewRequest()
 			err := req.Decode(cl.Upstream.Encoder, request)
 			if err != nil {
